@@ -67,6 +67,7 @@ fn parse_ref_vs_reference<const N: usize>(buf: &[u8; N], start: usize, labels: u
 // @bound: every 6-octet message whose octet 4 starts a compression pointer (0xC0, low target octet symbolic), name read at offset 4, for which the reference reader needs at most 2 labels and 2 pointer hops: accept/reject, end position, uncompressed length, compressed flag and every label equal the independent RFC 1035 4.1.4 reader; no panic, no read outside the message; each of parse_ref's loops ends within its bound
 // @assume: reference reader decides within 2 labels and 2 hops (label-bearing pointer cycles, which parse_ref ends only through the 255-octet limit after up to 127 rounds, are outside)
 // @unwindset: ::parse_ref$.0=4; ::parse_ref$.1=3; ::parse_ref$.2=2
+// @unwindset_fallback: base/name/parsed\.rs=4
 // @stub: core::slice::index::slice_index_fail -> panic without formatted message
 // @termination: true
 // @outside: pointers with a non-zero high part (message < 256 octets), longer messages, more labels/hops
@@ -83,6 +84,7 @@ fn c01_parse_ref_pointer_first_6() {
 // @bound: every 4-octet message, name read at offset 0 or 1, all octets symbolic (labels, pointers, reserved label types, truncation), for which the reference reader needs at most 2 labels and 1 hop: same oracle as above
 // @assume: reference reader decides within 2 labels and 1 hop
 // @unwindset: ::parse_ref$.0=3; ::parse_ref$.1=2; ::parse_ref$.2=3
+// @unwindset_fallback: base/name/parsed\.rs=4
 // @stub: core::slice::index::slice_index_fail -> panic without formatted message
 // @termination: true
 #[kani::proof]
